@@ -58,6 +58,11 @@ def inputs(tier):
         out.append(dict(src='corpus', d=d, cfg='keep-penalised'))
     out.append(dict(src='corpus', d=corpus.window_desc('3SGB', 'I', 0, 10), cfg='keep-penalised'))
     out.append(dict(src='corpus', d=corpus.cutout_desc('4DFR', 'A', 26, 10.0), cfg='keep-penalised'))
+    # coupled pairs of different type (carboxylate ligand / histidine / tyrosine partners) under output orders that give one of the
+    # two no row
+    for a, b in (('GLU', 'ACT'), ('ASP', 'ACT'), ('GLU', 'HIS'), ('TYR', 'CYS'), ('HIS', 'HIS')):
+        for name in ('no-rows=OCO', 'no-rows=HIS+TYR', 'no-rows=ASP+GLU'):
+            out.append(dict(src='corpus', d=corpus.pair_desc(a, b, 2.8, 'deep'), cfg=name))
     # the request for alternative states in an earlier calculation of the same process must not carry over
     for ci in coupled_inputs:
         for pj in (0, 2):
@@ -73,6 +78,7 @@ CFG_EDITS = {'min_pka=4': {'min_pka': '4.0'}, 'min_pka=8': {'min_pka': '8.0'}, '
              'min_swap_pka_shift=0': {'min_swap_pka_shift': '0.0'}, 'min_swap_pka_shift=4': {'min_swap_pka_shift': '4.0'},
              'max_intrinsic_pka_diff=0.3': {'max_intrinsic_pka_diff': '0.3'}, 'max_intrinsic_pka_diff=9': {'max_intrinsic_pka_diff': '9.0'},
              'reference=low-pH': {'reference': 'low-pH'}, 'keep-penalised': {'remove_penalised_group': '0'},
+             'no-rows=OCO': {'-write_out_order': ['OCO']}, 'no-rows=HIS+TYR': {'-write_out_order': ['HIS', 'TYR']}, 'no-rows=ASP+GLU': {'-write_out_order': ['ASP', 'GLU']},
              'exclude=ASP': {'+exclude_sidechain_interactions': ['ASP']}, 'exclude=GLU+HIS': {'+exclude_sidechain_interactions': ['GLU', 'HIS']},
              'exclude=TYR+LYS+ARG+CYS': {'+exclude_sidechain_interactions': ['TYR', 'LYS', 'ARG', 'CYS']},
              'all-open': {'min_pka': '-20.0', 'max_pka': '30.0', 'min_interaction_energy': '0.0', 'max_free_energy_diff': '99.0',
@@ -93,8 +99,11 @@ def cfg_opts(case):
     path = os.path.abspath('c15_%s.cfg' % name.replace('=', '_').replace('+', '_'))
     if not os.path.exists(path):
         lines = []
+        drop = {k_[1:]: v_ for k_, v_ in CFG_EDITS[name].items() if k_.startswith('-')}
         for ln in c02.cfg_variants()[(1, 0, 0)].splitlines(True):
             w = ln.split()
+            if w and w[0] in drop and w[1:2] and w[1] in drop[w[0]]:
+                continue      # one entry of a list keyword removed
             if w and w[0] in CFG_EDITS[name]:
                 ln = '%s %s\n' % (w[0], CFG_EDITS[name][w[0]])
             lines.append(ln)
